@@ -37,7 +37,7 @@ import (
 // ordinary budget with the verdict taken as soon as the call has used its CPU or allocation budget (the
 // call is not waited for any longer), and after the first such verdict the process makes no further call.
 // On a tree that refuses these images every entry point is called on them and costs microseconds.
-const judgeFvSizeSumWrap = false
+const judgeFvSizeSumWrap = true
 
 // ---- refused-options ----
 
